@@ -399,3 +399,39 @@ Proof. exact @tiea_vrepeat. Qed.
 Theorem C15_model_is_source_eye :
   forall (T : Type) (O : Ops T) (n : nat), src_eye O (zeros_z O) (Z.of_nat n) = option_map zmat (eye O n).
 Proof. exact @tiea_eye. Qed.
+
+(** ** Tie A, fourth round: the approximate comparisons are the source (regenerated from src/linalg/array/vec.rs and
+    src/linalg/array/matrix.rs on every run by tools/tiea/compare_loops.py).  [rel_diff] (the private helper of vec.rs, with
+    [diff.is_infinite()] = [rs_is_infinite]: [(x == inf) | (x == -inf)]) is the model's term; [Vector::close_to] /
+    [PartialEq<Vector>::eq] never panic (both reads are in bounds once the lengths agree) and are the models' [forallb];
+    [Matrix::close_to] / [PartialEq<Matrix>::eq] compare [shape()] first. *)
+From Compute Require Import Base.RsExprMore Base.RsExprFour Generated.compare_loops Proofs.TieA_compare_loops.
+Theorem C15_model_is_source_rel_diff :
+  forall (T : Type) (O : Ops T) (x y : T), src_rel_diff O x y = rel_diff O x y.
+Proof. exact @tiea_rel_diff. Qed.
+Theorem C15_model_is_source_close_to :
+  forall (T : Type) (O : Ops T) (x y : list T) (tol : T), src_vector_close_to O x y tol = Some (close_to_v O x y tol).
+Proof. exact @tiea_vector_close_to. Qed.
+Theorem C15_model_is_source_vector_eq :
+  forall (T : Type) (O : Ops T) (x y : list T), src_vector_eq O x y = Some (eq_v O x y).
+Proof. exact @tiea_vector_eq. Qed.
+Theorem C15_model_is_source_matrix_close_to :
+  forall (T : Type) (O : Ops T) (a b : mat T) (tol : T),
+    src_matrix_close_to O (data a) (Z.of_nat (nrows a)) (Z.of_nat (ncols a)) (zmat b) tol = Some (close_to_m O a b tol).
+Proof. exact @tiea_matrix_close_to. Qed.
+Theorem C15_model_is_source_matrix_eq :
+  forall (T : Type) (O : Ops T) (a b : mat T),
+    src_matrix_eq O (data a) (Z.of_nat (nrows a)) (Z.of_nat (ncols a)) (zmat b) = Some (eq_m O a b).
+Proof. exact @tiea_matrix_eq. Qed.
+(** the layout conversions of utils.rs ([x = a.to_vec(); x[j * nrows + i] = a[i * ncols + j]] for every i, j) against the loop
+    models ([Generated/solve_loops.v], tools/tiea/solve_loops.py; the same generated functions are tied to C01's transposes in
+    Properties/C01.v) *)
+From Compute Require Import Generated.solve_loops Proofs.TieA_solve_loops.
+Theorem C15_model_is_source_row_to_col_major :
+  forall (T : Type) (O : Ops T) (a : list T) (nr : nat),
+    src_row_to_col_major O (is_matrix_zs (T := T)) a (Z.of_nat nr) = Model.Shape.row_to_col_major O a nr.
+Proof. exact @tiea_row_to_col_major_loop. Qed.
+Theorem C15_model_is_source_col_to_row_major :
+  forall (T : Type) (O : Ops T) (a : list T) (nr : nat),
+    src_col_to_row_major O (is_matrix_zs (T := T)) a (Z.of_nat nr) = Model.Shape.col_to_row_major O a nr.
+Proof. exact @tiea_col_to_row_major_loop. Qed.
